@@ -87,3 +87,56 @@ Definition graph_wf (t : tree) : bool :=
   && forallb has_id (subtrees t)
   && strs_nodup (map id_of (subtrees t))
   && forallb shape_ok (subtrees t).
+
+(* ---------- writing into a graph that already has content ---------- *)
+Definition gids (g : graph) : list str := map g_id (g_nodes g).
+
+(* node ids are distinct and every edge joins two nodes of the graph (what add_node / add_link maintain) *)
+Definition good_graph (g : graph) : bool :=
+  strs_nodup (gids g)
+  && forallb (fun e => match e with (a, _, b) => existsb (str_eqb a) (gids g) && existsb (str_eqb b) (gids g) end)
+             (g_edges g).
+
+(* the sliver's node ids are fresh in the graph (and distinct among themselves) *)
+Definition fresh_in (g : graph) (t : tree) : bool := strs_nodup (gids g ++ map id_of (subtrees t)).
+
+(* the writer by class: under an existing node of the graph (components always; services and interfaces
+   optionally) or stand-alone *)
+Definition add_under (g : graph) (parent : option str) (t : tree) : res graph :=
+  match t_kind t, parent with
+  | KNode, None => add_network_node_sliver g t
+  | KComponent, Some pid => add_component_sliver g pid t
+  | KService, _ => add_network_service_sliver g parent t
+  | KInterface, _ => add_interface_sliver g parent t
+  | KLink, None => add_network_link_sliver g t []
+  | _, _ => Err ExOther
+  end.
+
+(* the place the sliver is written to is one the API uses: the parent exists and is of a class that owns
+   such slivers (a sub-interface added under an existing interface is a leaf that is not a DedicatedPort);
+   a stand-alone node / service has a name that is free (check_node_unique, else the writer refuses) *)
+Definition parent_ok (g : graph) (parent : option str) (t : tree) : bool :=
+  match parent with
+  | None =>
+      match t_kind t with
+      | KNode | KService => check_node_unique g (class_label (t_kind t)) (t_name t)
+      | KInterface | KLink => true
+      | KComponent => false
+      end
+  | Some pid =>
+      match find_node g pid with
+      | None => false
+      | Some n =>
+          match t_kind t with
+          | KComponent => String.eqb (g_label n) (class_label KNode)
+          | KService => String.eqb (g_label n) (class_label KNode) || String.eqb (g_label n) (class_label KComponent)
+          | KInterface => String.eqb (g_label n) (class_label KService)
+                          || (String.eqb (g_label n) (class_label KInterface) && childless t && negb (is_dedicated t))
+          | KNode | KLink => false
+          end
+      end
+  end.
+
+(* a sliver tree the graph route can carry, of any class *)
+Definition graph_wf_sub (t : tree) : bool :=
+  tree_wf t && forallb has_id (subtrees t) && forallb shape_ok (subtrees t).
